@@ -202,6 +202,89 @@ func pieceLen(ps int, total int64, index int) int {
 	return int(total - int64(index)*int64(ps))
 }
 
+const two32 = int64(1) << 32
+
+// genBigLayout: a sparse torrent of 4.5–6 GiB; multi-file layouts put small files, an empty file
+// and a padding file around the 2^32 boundary
+func genBigLayout(r *vhlib.Rand) (int, int64, []fileSpec) {
+	ps := r.PickInt(1<<20, 1<<20, 49152*8, 49152*21, 1<<21, 49152)
+	total := two32 + int64(1+r.Intn(3))*(int64(1)<<29) + int64(r.Intn(1<<20))
+	if r.Chance(35) {
+		return ps, total, nil
+	}
+	var fs []fileSpec
+	first := two32 - int64(r.PickInt(0, 1, 100, 16384, 70000, 3<<20))
+	if r.Chance(30) {
+		first = two32 + int64(r.PickInt(1, 16385, 1<<20))
+	}
+	if r.Chance(30) { // two large files before the boundary
+		h := first / 2
+		fs = append(fs, fileSpec{h, false})
+		first -= h
+	}
+	fs = append(fs, fileSpec{first, false})
+	acc := int64(0)
+	for _, f := range fs {
+		acc += f.length
+	}
+	for i, n := 0, r.Intn(5); i < n; i++ {
+		l := fileLens[r.Intn(len(fileLens))]
+		pad := r.Chance(25)
+		if pad && acc%int64(ps) != 0 {
+			l = int64(ps) - acc%int64(ps)
+		}
+		fs = append(fs, fileSpec{l, pad})
+		acc += l
+	}
+	if acc < total {
+		fs = append(fs, fileSpec{total - acc, false})
+	} else {
+		total = acc
+	}
+	return ps, total, fs
+}
+
+// bigRange: a piece and an offset whose absolute position is near (on either side of) or beyond 2^32
+func bigRange(r *vhlib.Rand, ps int, total int64) (int, int) {
+	var a int64
+	switch r.Intn(4) {
+	case 0:
+		a = two32 - int64(r.Intn(4*ps))
+	case 1:
+		a = two32 + int64(r.Intn(4*ps))
+	default:
+		a = two32 + int64(r.U64()%uint64(total-two32))
+	}
+	if a >= total {
+		a = total - 1
+	}
+	if a < 0 {
+		a = 0
+	}
+	return int(a / int64(ps)), int(a % int64(ps))
+}
+
+// genBigFcCases: several queries on one large layout (the torrent is parsed once)
+func genBigFcCases(s *state) {
+	r := s.c.R
+	ps, total, fs := genBigLayout(r)
+	for k := 0; k < 6; k++ {
+		index, off := bigRange(r, ps, total)
+		pl := pieceLen(ps, total, index)
+		if off >= pl {
+			off = pl - 1
+		}
+		if r.Chance(70) {
+			off = off / CS * CS
+		}
+		l := 1 + r.Intn(pl-off)
+		if r.Chance(40) {
+			l = pl - off
+		}
+		runOp(s, fmt.Sprintf("fc %d %d %s %d %d %d", ps, total, filesStr(fs), index, off, l))
+	}
+}
+
 func genFcCase(s *state) {
 	r := s.c.R
 	ps, total, fs := genLayout(r)
@@ -318,6 +401,100 @@ func genResp(r *vhlib.Rand, p chunk) string {
 	}
 }
 
+// genLargePieceLayout: pieces of 2 or 4 MiB (holes above the 1 MiB cap of a fetch)
+func genLargePieceLayout(r *vhlib.Rand) (int, int64, []fileSpec) {
+	ps := r.PickInt(1<<21, 1<<21, 1<<22)
+	total := int64(ps)*int64(1+r.Intn(2)) + int64(r.PickInt(0, 1, 16385, 1<<20, 1<<20+5000, ps-1))
+	if r.Chance(50) {
+		return ps, total, nil
+	}
+	var fs []fileSpec
+	acc := int64(0)
+	for acc < total {
+		l := int64(r.PickInt(100, 16385, 1<<20, 1<<21, 3<<20, 70000))
+		pad := r.Chance(15)
+		if pad && acc%int64(ps) != 0 {
+			l = int64(ps) - acc%int64(ps)
+		}
+		if acc+l > total {
+			l = total - acc
+		}
+		fs = append(fs, fileSpec{l, pad})
+		acc += l
+	}
+	return ps, total, fs
+}
+
+func genLargePrefill(r *vhlib.Rand, pl int) string {
+	b := make([]byte, nblocks(pl))
+	for i := range b {
+		b[i] = '0'
+	}
+	switch r.Intn(4) {
+	case 0: // nothing yet
+	case 1: // a few blocks at the start
+		for i := 0; i < r.Intn(4) && i < len(b); i++ {
+			b[i] = '1'
+		}
+	case 2: // one block somewhere: two holes
+		b[r.Intn(len(b))] = '1'
+	default: // a block exactly 64 or 65 blocks after the start of the hole
+		if k := r.PickInt(64, 65, 63); k < len(b) {
+			b[k] = '1'
+		}
+	}
+	return string(b)
+}
+
+// genMaybeLargeCase: maybeWebseed on pieces larger than the 1 MiB cap; successive calls work
+// through the piece while the earlier reservations are still outstanding
+func genMaybeLargeCase(s *state) {
+	r := s.c.R
+	ps, total, fs := genLargePieceLayout(r)
+	np := int((total + int64(ps) - 1) / int64(ps))
+	index := r.Intn(np)
+	pl := pieceLen(ps, total, index)
+	runOp(s, fmt.Sprintf("g.new %d %d %s %d %d %s", ps, total, filesStr(fs), index, r.Intn(250), genLargePrefill(r, pl)))
+	for k, n := 0, 1+r.Intn(3); k < n; k++ {
+		mode := "e"
+		if r.Chance(12) {
+			mode = "h"
+		}
+		runOp(s, "g.maybe "+mode)
+	}
+	runOp(s, "w.dump")
+}
+
+// genBigWebseedCase: a fetch in a piece beyond 2^32 of a sparse multi-GiB torrent
+func genBigWebseedCase(s *state) {
+	r := s.c.R
+	ps, total, fs := genBigLayout(r)
+	index, off := bigRange(r, ps, total)
+	pl := pieceLen(ps, total, index)
+	off = off / CS * CS
+	if off >= pl {
+		off = 0
+	}
+	l := CS * (1 + r.Intn(3))
+	if l > pl-off {
+		l = pl - off
+	}
+	runOp(s, fmt.Sprintf("g.new %d %d %s %d %d -", ps, total, filesStr(fs), index, r.Intn(250)))
+	A := int64(index)*int64(ps) + int64(off)
+	part := partition(fs, total, A, int64(l))
+	var items []string
+	for _, p := range part {
+		if p.pad {
+			items = append(items, "pad")
+			continue
+		}
+		tot := fmt.Sprint(p.flen)
+		items = append(items, fmt.Sprintf("206;-;%s;%d:%d:0;e", vhlib.Hex([]byte(crStr(p.off, p.off+p.leng-1, tot))), p.off, p.leng))
+	}
+	runOp(s, fmt.Sprintf("g.fetch %d %d %s", off, l, strings.Join(items, "/")))
+	runOp(s, "w.dump")
+}
+
 func genWebseedCase(s *state) {
 	r := s.c.R
 	ps, total, fs := genLayout(r)
@@ -343,7 +520,7 @@ func genWebseedCase(s *state) {
 			}
 		}
 		if r.Chance(15) {
-			runOp(s, "g.maybe")
+			runOp(s, "g.maybe "+pickStr(r, "h", "h", "e"))
 			runOp(s, "w.dump")
 			continue
 		}
@@ -442,8 +619,17 @@ func generate(s *state) {
 	for i := 0; i < n; i++ {
 		genFcCase(s)
 	}
+	for i := 0; i < n/40+2; i++ {
+		genBigFcCases(s)
+	}
 	for i := 0; i < n/4+1; i++ {
 		genWebseedCase(s)
+	}
+	for i := 0; i < n/80+2; i++ {
+		genBigWebseedCase(s)
+	}
+	for i := 0; i < n/40+3; i++ {
+		genMaybeLargeCase(s)
 	}
 	for i := 0; i < n; i++ {
 		genPcrCase(s)
